@@ -135,7 +135,9 @@ fn check_scaling(scn: &Scenario, stats: &mut Stats) -> Vec<Violation> {
         stats.inc("t1_incarnations");
         stats.inc("scaling_analyses");
         if let Some(site) = o.panic.as_ref().and_then(|p| p.budget_site.clone()) {
-            out.push(viol("sweeps-bounded", format!("does-not-converge:{site}"), format!("scaling family {f}: the {site} loop passed its hard cap"), &feats));
+            // In these families the analyses do end; passing the cap of 16 sweeps per node is the
+            // same finding as the growth below, met at a larger size.
+            out.push(viol("sweeps-bounded", format!("sweeps-grow-faster-than-the-program:{site}"), format!("scaling family, file {f}: the pipeline needs more than 16 {site}s per node (hard cap of the step hook passed)"), &feats));
             return out;
         }
         let Some(s) = o.snapshot else { return out };
